@@ -526,6 +526,55 @@ def _pgp(o):
 EXTRA.append(_pgp)
 
 
+
+# ---------------------------------------------------------------------------
+# hash.py / verify.py (C17)
+# ---------------------------------------------------------------------------
+
+def _hash(o):
+    h = _src('gemato/hash.py')
+    ver = _src('gemato/verify.py')
+    man = _src('gemato/manifest.py')
+    o.item('hashBufferSize', 'Nat', lambda: str(ast.literal_eval(find_assign(h, 'HASH_BUFFER_SIZE'))), '0')
+    o.item('maxSlurpSize', 'Nat', lambda: str(ast.literal_eval(find_assign(h, 'MAX_SLURP_SIZE'))), '0')
+
+    def hf():
+        return find_func(h, 'hash_file')
+
+    def slurp_if():
+        for n in hf().body:
+            if isinstance(n, ast.If):
+                return n
+        raise KeyError('if in hash_file')
+    o.item('hashSlurpCond', 'List Nat', lambda: lstr(ast.unparse(slurp_if().test)), '[]')
+    o.item('hashSlurpBody', 'List (List Nat)',
+           lambda: llist(lstr(ast.unparse(st).split('\n')[0]) for st in slurp_if().body), '[]')
+    o.item('hashLoopBody', 'List (List Nat)',
+           lambda: llist(lstr(x) for st in slurp_if().orelse for x in ast.unparse(st).split('\n')), '[]')
+    o.item('hashReturn', 'List Nat', lambda: lstr(ast.unparse(hf().body[-1])), '[]')
+    o.item('hashGetByName', 'List (List Nat)',
+           lambda: llist(lstr(x.strip()) for st in find_func(h, 'get_hash_by_name').body[1:]
+                         for x in ast.unparse(st).split('\n')), '[]')
+    o.item('hashSizeHash', 'List (List Nat)',
+           lambda: llist(lstr(x.strip()) for c in h.body if isinstance(c, ast.ClassDef) and c.name == 'SizeHash'
+                         for m in c.body if isinstance(m, ast.FunctionDef)
+                         for x in ast.unparse(m).split('\n')), '[]')
+
+    def meta_hash_call():
+        f = find_func(ver, 'get_file_metadata')
+        for n in ast.walk(f):
+            if isinstance(n, ast.Call) and isinstance(n.func, ast.Name) and n.func.id == 'hash_file':
+                return lstr(ast.unparse(n))
+        raise KeyError('hash_file call')
+    o.item('metaHashCall', 'List Nat', meta_hash_call, '[]')
+    o.item('hashNameTranslation', 'List (List Nat)',
+           lambda: llist(lstr(x.strip()) for st in find_func(man, 'manifest_hashes_to_hashlib').body[1:]
+                         for x in ast.unparse(st).split('\n')), '[]')
+
+
+EXTRA.append(_hash)
+
+
 if __name__ == '__main__':
     errs = write_extracted()
     print(open(os.path.join(LEAN, 'Gemato', 'Extracted.lean')).read())
